@@ -6,6 +6,7 @@ import (
 	"fmt"
 	"sort"
 	"strings"
+	"time"
 
 	sdk "github.com/cosmos/cosmos-sdk/types"
 
@@ -111,6 +112,9 @@ func pricingText(name string) string {
 		return fmt.Sprintf(`{"price":"20stake","promotions_by_time":[{"start_time":"%s","end_time":"%s","discount":"0.5"}]}`, ts(0), ts(3))
 	case "p3t": // 3stake at half price during the first six seconds: 1.5 -> fee 1
 		return fmt.Sprintf(`{"price":"3stake","promotions_by_time":[{"start_time":"%s","end_time":"%s","discount":"0.5"}]}`, ts(0), ts(6))
+	case "p4tms": // a window whose ends carry fractions of a second: [T0+1.5s, T0+3.9s)
+		return fmt.Sprintf(`{"price":"4stake","promotions_by_time":[{"start_time":"%s","end_time":"%s","discount":"0.5"}]}`,
+			T0.Add(1500*time.Millisecond).Format("2006-01-02T15:04:05.000Z"), T0.Add(3900*time.Millisecond).Format("2006-01-02T15:04:05.000Z"))
 	case "p5":
 		return `{"price":"5stake"}`
 	case "p20":
@@ -499,6 +503,7 @@ type Scenario struct {
 	Depth            int
 	MaxBlocks        int   // bound on E actions (absolute: height < H0+MaxBlocks)
 	MaxMsgs          int   // messages per block
+	SubSecondMs      int64 // every block time of the run carries this many milliseconds besides its whole seconds
 	TimeJump         int64 // if > 0, an end of block may also be followed by a block whose time lies that many seconds later
 	Restart          bool  // the chain may be restarted once from a zero-height export (between two blocks)
 }
